@@ -117,7 +117,7 @@ struct MirEmitter {
     insn(rt == 'd' ? "ret rd" : rt == 'f' ? "ret rf" : "ret rl");
   }
   void emit_call(const std::string &target, const std::string &dst, const std::string &callee, const Json &args) {
-    auto it = sigs->find(callee); const std::string &ps = it->second.ps; char rt = it->second.rt;
+    auto it = sigs->find(callee); const std::string ps = it->second.ps.empty() ? default_ps(it->second.na, it->second.nd) : it->second.ps; char rt = it->second.rt;  // (hand-made signatures may carry counts only)
     protos.insert({ps, rt});
     std::string s = "call " + proto_name(ps, rt) + ", " + target + ", " + (rt == 'q' ? dst : rt == 'd' ? std::string("rd") : rt == 'f' ? std::string("rf") : std::string("rl"));
     int ai = 0, di = 0, bi = 0;
@@ -300,7 +300,7 @@ struct CEmitter {
   }
   void stmts(const Json &b) { for (auto &st : b.a) stmt(st); }
   void call(const std::string &target, const Json &dst, const std::string &callee, const Json &args, const std::map<std::string, FuncInfo> &sigs) {
-    auto &fi = sigs.at(callee); ind(); bool hb = has_blk(fi.ps);
+    FuncInfo fi = sigs.at(callee); if (fi.ps.empty()) fi.ps = default_ps(fi.na, fi.nd); ind(); bool hb = has_blk(fi.ps);
     if (hb) {  // aggregates are built in named temporaries
       out += "{ "; int ai = 0, bi = 0;
       for (char c : fi.ps) { if (const BlkInfo *b = blk_info(c)) {
@@ -379,7 +379,7 @@ struct CEmitter {
     { bool um = false; for (auto &f : m.at("funcs").a) walk(f.at("body"), [&](const Json &st) { if (st[0].s == "extm") um = true; });
       if (um) r += "extern long long extm(long long, float, long double, int, double, unsigned char, long double, long long, float, short, long long, unsigned int, long long);\n"; }
     std::set<std::string> defined; for (auto &f : m.at("funcs").a) defined.insert(f.gets("name"));
-    auto plist = [&](const FuncInfo &fi, bool names) { std::string s; int ai = 0, di = 0, k = 0; for (char c : fi.ps) { if (k++) s += ", "; s += c_ty(c); if (names) s += blk_kind(c) ? S(" s%d", ai++) : int_kind(c) ? S(" a%d", ai++) : S(" d%d", di++); } if (fi.ps.empty()) s += "void"; return s; };
+    auto plist = [&](const FuncInfo &fi0, bool names) { FuncInfo fi = fi0; if (fi.ps.empty()) fi.ps = default_ps(fi.na, fi.nd); std::string s; int ai = 0, di = 0, k = 0; for (char c : fi.ps) { if (k++) s += ", "; s += c_ty(c); if (names) s += blk_kind(c) ? S(" s%d", ai++) : int_kind(c) ? S(" a%d", ai++) : S(" d%d", di++); } if (fi.ps.empty()) s += "void"; return s; };
     auto proto = [&](const FuncInfo &fi) { return std::string(c_ty(fi.rt)) + " " + fi.name + "(" + plist(fi, true) + ")"; };
     std::set<std::string> used, ic;
     for (auto &f : m.at("funcs").a) walk(f.at("body"), [&](const Json &st) { if (st[0].s == "call" || st[0].s == "icall") used.insert(st[2].s); if (st[0].s == "icall") ic.insert(st[2].s); });
